@@ -3,6 +3,7 @@
 package main
 
 import (
+	"go/token"
 	"go/types"
 
 	"golang.org/x/tools/go/ssa"
@@ -43,7 +44,41 @@ func registerStunStubs() {
 	}
 	// HMAC-SHA1 over the message: 20 unconstrained bytes (no cryptographic reasoning).
 	stubs[stunPath+".newHMAC"] = func(e *Engine, c *callCtx) bool {
+		if c.st.ghost == nil {
+			c.st.ghost = map[string]Value{}
+		}
+		c.st.ghost["hmac_key"] = c.args[0] // which key the code under test used (harness: vGhostBytes)
 		c.set(e.nondetFreshSlice(c.st, "hmac", 20))
+		return true
+	}
+	stubs[stunPath+".checkHMAC"] = func(e *Engine, c *callCtx) bool {
+		// checkHMAC(got, expected): records the verdict as a ghost so that harnesses can state
+		// "integrity was checked and matched" without cryptographic reasoning.
+		eq := e.bytesEq(c.st, c.args[0].(SliceV), c.args[1].(SliceV))
+		alive, val, other := e.branch(c.st, eq)
+		if !alive {
+			return true
+		}
+		g := e.prog.ImportedPackage(stunPath).Var("ErrIntegrityMismatch")
+		set := func(s *State, ok bool) {
+			if s.ghost == nil {
+				s.ghost = map[string]Value{}
+			}
+			s.ghost["hmac_equal"] = BoolV{e.tb.Bool(ok)}
+			if c.res == nil {
+				return
+			}
+			if ok {
+				s.top().locals[c.res] = IfaceV{}
+			} else {
+				s.top().locals[c.res] = e.load(s, ptrToObj(s, e.globalObj(s, g)))
+			}
+		}
+		set(c.st, val)
+		if other != nil {
+			set(other, !val)
+			e.push(other)
+		}
 		return true
 	}
 	stubs[stunPath+".FingerprintValue"] = func(e *Engine, c *callCtx) bool {
@@ -70,6 +105,17 @@ func registerStunStubs() {
 		"(" + stunPath + ".ErrorCode).String", "(" + stunPath + ".RawAttribute).String"} {
 		stubs[n] = stubOpaqueString("stunstr")
 	}
+	// isIPv4(ip) for a 16-byte IP: one term instead of a 12-way byte loop
+	stubs[stunPath+".isIPv4"] = func(e *Engine, c *callCtx) bool {
+		bs, n := e.ipBytes(c.st, c.args[0].(SliceV))
+		if n != 16 {
+			panic(hardErr("stun.isIPv4 on an IP that is not 16 bytes"))
+		}
+		c.set(BoolV{e.isV4Mapped(bs)})
+		return true
+	}
+	stubs["crypto/subtle.XORBytes"] = stubXORBytes
+	stubs["github.com/pion/transport/v4/utils/xor.XorBytes"] = stubXORBytes
 	stubs[stunPath+".newDecodeErr"] = stubFreshErr
 	stubs[stunPath+".newAttrDecodeErr"] = stubFreshErr
 }
@@ -112,6 +158,36 @@ func (e *Engine) depGlobalInit(st *State, g *ssa.Global, id int) bool {
 		return true
 	}
 	return false
+}
+
+// subtle.XORBytes(dst, x, y): n = min(len(x), len(y)); panics if len(dst) < n; dst[i] = x[i]^y[i].
+func stubXORBytes(e *Engine, c *callCtx) bool {
+	dst, x, y := c.args[0].(SliceV), c.args[1].(SliceV), c.args[2].(SliceV)
+	nx, ny := e.mustConst(x.ln, "XORBytes length"), e.mustConst(y.ln, "XORBytes length")
+	n := nx
+	if ny < n {
+		n = ny
+	}
+	if n == 0 {
+		c.set(e.goInt(0))
+		return true
+	}
+	if !e.panicCheck(c.st, c.f, c.in, e.idxLe(e.idx(int64(n)), dst.ln), "subtle.XORBytes: dst too short") {
+		return true
+	}
+	xa, ya := e.sliceArr(c.st, x), e.sliceArr(c.st, y)
+	vals := make([]Term, n)
+	for i := 0; i < n; i++ {
+		ix := e.idx(int64(i))
+		a, b := IntV{xa.sel(e, e.idxAdd(x.off, ix)), 8, false}, IntV{ya.sel(e, e.idxAdd(y.off, ix)), 8, false}
+		vals[i] = e.ibin(token.XOR, a, b).(IntV).t
+	}
+	o := c.st.mut(dst.obj)
+	for i := 0; i < n; i++ {
+		o.arr = AStore{o.arr, e.idxAdd(dst.off, e.idx(int64(i))), vals[i]}
+	}
+	c.set(e.goInt(int64(n)))
+	return true
 }
 
 func registerCryptoStubs() {
